@@ -281,14 +281,8 @@ impl SubscriptionActor {
     /// its mailbox in the meantime.
     fn delete(&mut self, responder: oneshot::Sender<Result<(), DeleteError>>) {
         if self.deleted {
-            // A deletion is already in progress: respond once it has completed.
-            let deleted = self.observer.deleted();
-            #[cfg(deltio_verif)]
-            crate::verif::label(|| format!("sub-delete-wait:{}", self.info.name));
-            tokio::spawn(async move {
-                deleted.await;
-                let _ = responder.send(Ok(()));
-            });
+            // A deletion is already in progress: this request lost the race against it.
+            let _ = responder.send(Err(DeleteError::Closed));
             return;
         }
 
